@@ -244,7 +244,7 @@ pub fn gen_target(rng: &mut Rng, i: usize) -> TargetSpec {
         0 => format!("[fd00::{:x}]:{}", rng.range(1, 0xffff), rng.range(1, 65535)),
         // legal but unusual: IPv4-mapped and IPv4-compatible IPv6, loopback, unspecified, port boundaries
         4 => format!("[::ffff:10.{}.{}.{}]:{}", rng.below(256), rng.below(256), rng.range(1, 254), rng.range(1, 65535)),
-        5 => (*rng.pick(&["[::1]:25565", "[::]:1", "0.0.0.0:65535", "[::10.0.0.9]:25566", "127.0.0.1:0", "255.255.255.255:1", "[2001:db8:0:0:1:0:0:1]:443"])).to_string(),
+        5 => (*rng.pick(&["[::1]:25565", "[::]:1", "0.0.0.0:65535", "[::10.0.0.9]:25566", "127.0.0.1:0", "255.255.255.255:1", "[2001:db8:0:0:1:0:0:1]:443", "10.0.0.7:16384", "10.0.0.7:16383", "10.0.0.7:128", "10.0.0.7:127", "10.0.0.7:32768", "[fd00::7]:16384", "10.0.0.7:255", "10.0.0.7:256"])).to_string(),
         _ => format!("10.{}.{}.{}:{}", rng.below(256), rng.below(256), rng.range(1, 254), rng.range(1, 65535)),
     };
     let mut meta = std::collections::BTreeMap::new();
